@@ -152,19 +152,29 @@ def validate (s : Schema) : Except Err Bool :=
 
 /-! ## header writer -/
 
+def pfxName : Str := "    - name: ".toList
+def pfxType : Str := "      type: ".toList
+def pfxUnit : Str := "      unit: ".toList
+def pfxFill : Str := "      fill: ".toList
+
+/-- an optional `key: 'value'` line -/
+def optLine (pfx : Str) : Option Str → List Str
+  | some v => [pfx ++ Yaml.yamlQuoted v]
+  | none => []
+
 def fieldLines (E : FloatExt) (f : Field) : List Str :=
-  ["    - name: ".toList ++ Yaml.yamlQuoted (f.name.getD []),
-   "      type: ".toList ++ f.typeName]
-  ++ (match f.unit with | some u => ["      unit: ".toList ++ Yaml.yamlQuoted u] | none => [])
-  ++ (match f.fill with | some v => ["      fill: ".toList ++ Yaml.yamlQuoted (pyStrP E v)] | none => [])
+  (pfxName ++ Yaml.yamlQuoted (f.name.getD [])) :: (pfxType ++ f.typeName) ::
+    (optLine pfxUnit f.unit ++ optLine pfxFill (f.fill.map (pyStrP E)))
+
+def lineSchema : Str := "schema:".toList
+def pfxDelim : Str := "  delimiter: ".toList
+def pfxMissing : Str := "  missing: ".toList
+def lineFields : Str := "  fields:".toList
 
 /-- the lines `write_scsv_header` writes between (and excluding) the two `---` fences -/
 def headerLines (E : FloatExt) (d m : Str) (fs : List Field) : List Str :=
-  ["schema:".toList,
-   "  delimiter: ".toList ++ Yaml.yamlQuoted d,
-   "  missing: ".toList ++ Yaml.yamlQuoted m,
-   "  fields:".toList]
-  ++ fs.flatMap (fieldLines E)
+  lineSchema :: (pfxDelim ++ Yaml.yamlQuoted d) :: (pfxMissing ++ Yaml.yamlQuoted m) :: lineFields ::
+    fs.flatMap (fieldLines E)
 
 /-! ## save -/
 
@@ -296,6 +306,22 @@ def parseQuotedValue (rest : Str) : Except Err Str :=
 
 def stripPrefix? (p s : Str) : Option Str := if p.isPrefixOf s then some (s.drop p.length) else none
 
+/-- an optional line `<pfx>'scalar'` at the head of `ls` -/
+def parseOptLine (pfx : Str) (ls : List Str) : Except Err (Option Str × List Str) :=
+  match ls with
+  | l :: rest =>
+    match stripPrefix? pfx l with
+    | some u => (parseQuotedValue u).map (fun v => (some v, rest))
+    | none => .ok (none, ls)
+  | [] => .ok (none, [])
+
+/-- the plain scalar after `type: ` (letters only; anything else is outside the modelled shape) -/
+def parseTypeValue (ty : Str) : Except Err Str :=
+  if !(ty.all isAsciiLetter) then .error .unmodelled
+  else match Yaml.resolvePlain ty with
+    | .str t => .ok t
+    | _ => .error .unmodelled
+
 /-- fields of the header, in the shape the writer emits: name, type, [unit], [fill] -/
 def parseFieldLines (fuel : Nat) (ls : List Str) : Except Err (List Field) :=
   match fuel with
@@ -304,25 +330,14 @@ def parseFieldLines (fuel : Nat) (ls : List Str) : Except Err (List Field) :=
   match ls with
   | [] => .ok []
   | l1 :: l2 :: rest =>
-    match stripPrefix? "    - name: ".toList l1, stripPrefix? "      type: ".toList l2 with
+    match stripPrefix? pfxName l1, stripPrefix? pfxType l2 with
     | some nm, some ty => do
       let name ← parseQuotedValue nm
-      if !(ty.all isAsciiLetter) then throw .unmodelled
-      let tyv ← match Yaml.resolvePlain ty with
-        | .str t => pure t
-        | _ => throw .unmodelled
-      let (unit, rest) ← match rest with
-        | l :: rest' => match stripPrefix? "      unit: ".toList l with
-          | some u => do let u ← parseQuotedValue u; pure (some u, rest')
-          | none => pure (none, rest)
-        | [] => pure (none, rest)
-      let (fill, rest) ← match rest with
-        | l :: rest' => match stripPrefix? "      fill: ".toList l with
-          | some u => do let u ← parseQuotedValue u; pure (some (PyVal.str u), rest')
-          | none => pure (none, rest)
-        | [] => pure (none, rest)
+      let tyv ← parseTypeValue ty
+      let (unit, rest) ← parseOptLine pfxUnit rest
+      let (fill, rest) ← parseOptLine pfxFill rest
       let fs ← parseFieldLines fuel rest
-      pure (⟨some name, some tyv, unit, fill⟩ :: fs)
+      pure (⟨some name, some tyv, unit, fill.map PyVal.str⟩ :: fs)
     | _, _ => .error .unmodelled
   | _ => .error .unmodelled
 
@@ -334,8 +349,8 @@ def parseHeader (yamlLines : List Str) : Except Err Schema :=
   else
     match yamlLines.map dropNL with
     | l0 :: l1 :: l2 :: l3 :: rest =>
-      if l0 ≠ "schema:".toList ∨ l3 ≠ "  fields:".toList then .error .unmodelled else
-      match stripPrefix? "  delimiter: ".toList l1, stripPrefix? "  missing: ".toList l2 with
+      if l0 ≠ lineSchema ∨ l3 ≠ lineFields then .error .unmodelled else
+      match stripPrefix? pfxDelim l1, stripPrefix? pfxMissing l2 with
       | some d, some m => do
         let d ← parseQuotedValue d
         let m ← parseQuotedValue m
